@@ -84,6 +84,16 @@ def cases(seed, tier):
         yield {'kind': 'clean', 'after': after, 'profile': prof, 'bclass': bclass,
                'opts': rng.choice([['-n'], ['-n'], ['-j'], ['-n', '-v'], ['-n', '-b']]), 'net': gen.rand_net(rng) if rng.random() < 0.5 else {'rtt_us': 100},
                'knobs': gen.rand_knobs(rng), 'pseed': rng.getrandbits(32)}
+    # directed: moduli whose size is not a multiple of 8 (nor of anything else): the neighbours of the two thresholds, and sizes whose encoding is
+    # as long as that of the next byte-aligned size (2047 / 2048); the statement's thresholds are in bits
+    k = 0
+    for sub in ((2047,), (2049,), (3071,), (3073,), (1023, 2055), (2041, 4095), (1535, 3065)):
+        for style in ('roundup', 'openssh'):
+            for bclass in ('openssh', 'other'):
+                rng = gen.case_rng(seed, ID, 'odd-bits', k)
+                k += 1
+                yield {'kind': 'clean', 'after': None, 'profile': mk(sub, style, ALGSETS[k % 3], bclass, rng), 'bclass': bclass,
+                       'opts': rng.choice([['-n'], ['-j']]), 'net': {'rtt_us': 100}, 'knobs': {}, 'pseed': rng.getrandbits(32)}
     # directed: servers for which no probe can obtain a modulus (strict selection, everything above 4096), audited after one that hands out a size
     k = 0
     for sub in ((6144,), (8192,), (6144, 8192)):
